@@ -96,8 +96,15 @@ def slice_vis(eng, rows, cols, prune=(True, True), hide=((), ()), hide_ins=(Fals
         if has_ins and not hide_ins[d] and not (prune[opp] and all_opp_empty):
             vis.append(-1)
         orders.append(vis)
+    from cr.cube.enums import ORDER_FORMAT
+
+    def ids(order):
+        # the same order in the insertion-id rendering: base elements by index, the (only, id-less) insertion as ins_1
+        return ["ins_1" if e < 0 else str(e) for e in order]
     obs = [Obs("row_order", [int(i) for i in part.row_order()], orders[0], kind="same"),
            Obs("column_order", [int(i) for i in part.column_order()], orders[1], kind="same"),
+           Obs("row_order (insertion ids)", [str(i) for i in part.row_order(ORDER_FORMAT.BOGUS_IDS)], ids(orders[0]), kind="same"),
+           Obs("column_order (insertion ids)", [str(i) for i in part.column_order(ORDER_FORMAT.BOGUS_IDS)], ids(orders[1]), kind="same"),
            Obs("shape", tuple(part.shape), (len(orders[0]), len(orders[1])), kind="same"),
            Obs("is_empty", bool(part.is_empty), len(orders[0]) == 0 or len(orders[1]) == 0, kind="same"),
            Obs("n row labels", len(part.row_labels), len(orders[0]), kind="same"),
@@ -152,7 +159,9 @@ def strand_vis(eng, rows, prune=True, hide=()):
     vis = [e for e in range(n_elems(v)) if e not in hide and not (prune and em[e])]
     if v.kind == "cat" and v.insertions:
         vis.append(-1)
+    from cr.cube.enums import ORDER_FORMAT
     return [Obs("row_order", [int(i) for i in part.row_order()], vis, kind="same"),
+            Obs("row_order (insertion ids)", [str(i) for i in part.row_order(ORDER_FORMAT.BOGUS_IDS)], ["ins_1" if e < 0 else str(e) for e in vis], kind="same"),
             Obs("shape", tuple(part.shape), (len(vis),), kind="same")]
 
 
